@@ -266,6 +266,18 @@ func c06(c *core.Ctx) {
 		c.EndRule()
 	}
 
+	// ---------------------------------------------------------------- R10
+	if c.Rule("R10", "every cloner configuration takes effect: the setter stores its own parameter, unchanged and on every path, into the channel's cloner field — the field Invoke/NewStream read (R4) — of the receiver it returns", 2) {
+		chans := map[*types.TypeName]bool{}
+		for _, ct := range channelTypes(p, "inprocgrpc") {
+			chans[ct.Obj()] = true
+		}
+		configPlumbing(c, "inprocgrpc", func(st *types.Named, f *types.Var) bool {
+			return chans[st.Obj()] && core.NamedOf(f.Type()) == "Cloner"
+		})
+		c.EndRule()
+	}
+
 	// ---------------------------------------------------------------- R7, R8, R9 (shared with C18)
 	// the destination is overwritten, never merged (C18/R1); refusals are errors, never a shallow or wrong-typed
 	// copy (C18/R2); every adapter bottoms out in a deep-copy primitive applied to the source (C18/R3)
